@@ -299,8 +299,18 @@ func TestReplay(t *testing.T) {
 		for _, c := range o.Calls {
 			fmt.Println("CALL", c)
 		}
+		c11known := loadKnown()
 		for _, v := range o.Violation {
 			fmt.Printf("REPLAY-VIOLATION %s: %s\n", v.Class(), v.Detail)
+			if os.Getenv("KAISIM_CORPUS") != "" && ws.Violation == nil {
+				if k := matchKnown(c11known, v); k != nil {
+					ws.Known[k.Prop+" "+k.What]++
+					continue
+				}
+				vv := v
+				ws.Violation = &vv
+				continue
+			}
 			if v.Class() == rf.Class && ws.Violation == nil {
 				vv := v
 				ws.Violation = &vv
@@ -323,9 +333,31 @@ func TestReplay(t *testing.T) {
 		def.Post(t, rf.Script, ors, res)
 	}
 	ws.add(rf.Script, res)
+	corpus := os.Getenv("KAISIM_CORPUS") != ""
+	var known []KnownFinding
+	if corpus {
+		known = loadKnown()
+		if res.Panic != "" && len(res.Violations) == 0 {
+			res.Violations = append(res.Violations, Violation{Prop: "INFRA", Rule: "harness_panic", Detail: res.Panic})
+		}
+	}
 	for _, v := range res.Violations {
 		ws.ReplayClasses = append(ws.ReplayClasses, v.Class())
 		fmt.Printf("REPLAY-VIOLATION %s: %s\n", v.Class(), v.Detail)
+		// corpus mode: the script once exposed a defect that has been repaired; any violation that
+		// is not a listed open finding counts, not only the recorded class
+		if corpus && ws.Violation == nil {
+			if v.Prop != rf.Property && v.Prop != "INFRA" {
+				continue
+			}
+			if k := matchKnown(known, v); k != nil {
+				ws.Known[k.Prop+" "+k.What]++
+				continue
+			}
+			vv := v
+			ws.Violation = &vv
+			continue
+		}
 		if v.Class() == rf.Class && ws.Violation == nil {
 			vv := v
 			ws.Violation = &vv
